@@ -76,6 +76,11 @@ def run(repo, chk, tier):
     if not frac_grad_by_interpretation(repo, chk):
         raise AnalysisError("FitFractions.get_frac_grad is not interpretable: the gradients behind the fit-fraction errors are not decided")
     check_tape_scope(repo, chk, ["tf_pwa/fitfractions.py"], min_functions=2)
+    # the error-propagation context (error_trans / params_trans) and the masks and temporary parameters used while a
+    # derived quantity is evaluated are context managers: their change must be undone on every exit of the block
+    from ..ctxrestore import check_ctx_restore
+
+    check_ctx_restore(repo, chk, ["tf_pwa/variable.py", "tf_pwa/params_trans.py", "tf_pwa/config.py", "tf_pwa/amp/amp.py", "tf_pwa/amp/core.py", "tf_pwa/config_loader/config_loader.py", "tf_pwa/config_loader/multi_config.py"], min_functions=6)
     chk.rule("E6-err", "NumberError operator rules: err^2 == sum (d val/d x_i)^2 err_i^2 (exact identity) and err >= 0 on the whole domain")
     chk.rule("E3-quad", "derived-quantity errors are sqrt(g . V . g) with one gradient and the matrix passed in; hesse errors are sqrt(|diag(inv H)|)")
     chk.assume("domain: values real (bases of powers / arguments of log positive), input errors positive; scalars real and non-zero")
@@ -147,7 +152,42 @@ def clause_exact_power(repo, chk):
         chk.oblige("E6-domain", "(%s +- %s) ** %s == %s +- %s" % (x, e, n, want_v, want_e), ok)
         if not ok:
             chk.violation("E6-domain", fn.key, "exact-power:%s^%s" % (x, n), "(%s +- %s) ** %s evaluates to %s +- %s, first-order propagation gives %s +- %s" % (x, e, n, val, err, want_v, want_e), file="tf_pwa/err_num.py", line=fn.lineno)
-    chk.require_count("E6-domain", len(EXACT_POWERS))
+    # binary operators at points where a VALUE is exactly zero (a vanishing numerator, a zero factor): the propagated
+    # error is defined there and must come out finite and equal to the first-order formula
+    X, Y = sp.symbols("X Y", real=True)
+    n_bin = 0
+    for op_name, expr in (("__truediv__", X / Y), ("__mul__", X * Y), ("__add__", X + Y), ("__sub__", X - Y)):
+        op = cls.methods.get(op_name)
+        if op is None:
+            raise AnalysisError("anchor vanished: NumberError.%s" % op_name)
+        points = [(sp.Integer(0), sp.Rational(1, 2), sp.Integer(3), sp.Rational(1, 4)), (sp.Integer(0), sp.Rational(1, 2), sp.Integer(-3), sp.Rational(1, 4)), (sp.Integer(2), sp.Rational(1, 3), sp.Integer(-5), sp.Rational(1, 7))]
+        if op_name != "__truediv__":
+            points.append((sp.Integer(2), sp.Rational(1, 3), sp.Integer(0), sp.Rational(1, 7)))
+            points.append((sp.Integer(0), sp.Rational(1, 3), sp.Integer(0), sp.Rational(1, 7)))
+        for x, ex, y, ey in points:
+            me = SelfObj(cls, {"_value": x, "_error": ex})
+            other = SelfObj(cls, {"_value": y, "_error": ey})
+            hooks = {"builtin.isinstance": lambda tr, args, kwargs, node: isinstance(args[0], SelfObj), cls.key: lambda tr, args, kwargs, node: _mk_number(cls, args, kwargs), "unary:log": _real_log}
+            tr = Translator(repo, hooks=hooks)
+            try:
+                res = tr.call_fn(op, [other], self_obj=me)
+            except Unmodelled as ex_:
+                raise AnalysisError("NumberError.%s cannot be interpreted at (%s +- %s), (%s +- %s): %s" % (op_name, x, ex, y, ey, ex_))
+            if not (isinstance(res, SelfObj) and "_value" in res.attrs and "_error" in res.attrs):
+                raise AnalysisError("NumberError.%s does not return NumberError(val, err)" % op_name)
+            try:
+                val, err = sp.simplify(sp.sympify(res.attrs["_value"])), sp.simplify(sp.sympify(res.attrs["_error"]))
+            except (TypeError, ValueError):
+                val = err = sp.nan
+            at = {X: x, Y: y}
+            want_v = expr.subs(at)
+            want_e = sp.sqrt((sp.diff(expr, X).subs(at) * ex) ** 2 + (sp.diff(expr, Y).subs(at) * ey) ** 2)
+            ok = (not val.has(sp.nan, sp.zoo, sp.oo)) and (not err.has(sp.nan, sp.zoo, sp.oo)) and sp.simplify(val - want_v) == 0 and sp.simplify(err - want_e) == 0
+            n_bin += 1
+            chk.oblige("E6-domain", "(%s +- %s) %s (%s +- %s) == %s +- %s" % (x, ex, op_name, y, ey, want_v, want_e), ok)
+            if not ok:
+                chk.violation("E6-domain", op.key, "zero-value:%s:%s,%s" % (op_name, x, y), "(%s +- %s) %s (%s +- %s) evaluates to %s +- %s, first-order propagation gives %s +- %s: a value of exactly zero (an interference fraction, a vanishing numerator) must not turn the error into nan / inf" % (x, ex, op_name, y, ey, val, err, want_v, want_e), file="tf_pwa/err_num.py", line=op.lineno)
+    chk.require_count("E6-domain", len(EXACT_POWERS) + n_bin)
 
 
 def clause_coord_and_config(repo, chk):
